@@ -493,7 +493,7 @@ def fix_reimported_names(source: str) -> str:
                     else:
                         original_name = next(
                             alias.name
-                            for alias in module_import_node.names
+                            for alias in reversed(module_import_node.names)  # the last binding wins
                             if alias.asname == name or (alias.asname is None and alias.name == name)
                         )
                     if referenced_name == original_name:
@@ -508,7 +508,7 @@ def fix_reimported_names(source: str) -> str:
                     # Add module_import_node, but with the alias changed from name -> asname if exists, and asname != name
                     original_name = next(
                         alias.name
-                        for alias in module_import_node.names
+                        for alias in reversed(module_import_node.names)  # the last binding wins
                         if alias.asname == name or (alias.asname is None and alias.name == name)
                     )
                     if referenced_name == original_name:
